@@ -77,9 +77,48 @@ impl C02 {
         let b = of[rng.usize(of.len())];
         let mut lines: Vec<String> = bdl.lines().map(|l| l.to_string()).collect();
         let is_wall = matches!(ty, "EXTERIOR-WALL" | "INTERIOR-WALL" | "UNDERGROUND-WALL" | "ROOF");
-        let mode = if is_wall { rng.usize(2) } else { rng.usize(2) };
+        let mode = if is_wall { rng.usize(2) } else { rng.usize(3) };
         let what;
-        if mode == 0 {
+        if mode == 2 {
+            // every reference to this definition now names an existing definition of ANOTHER kind (a week schedule where a
+            // day schedule belongs, a glass where a frame belongs, ...): the name exists in the file, the thing referred to does not
+            let sibling: &[&str] = match ty {
+                "DAY-SCHEDULE-PD" => &["WEEK-SCHEDULE-PD", "SCHEDULE-PD"],
+                "WEEK-SCHEDULE-PD" => &["DAY-SCHEDULE-PD", "SCHEDULE-PD"],
+                "SCHEDULE-PD" => &["WEEK-SCHEDULE-PD", "DAY-SCHEDULE-PD"],
+                "GLASS-TYPE" => &["NAME-FRAME", "GAP"],
+                "NAME-FRAME" => &["GLASS-TYPE", "GAP"],
+                "GAP" => &["CONSTRUCTION", "LAYERS"],
+                "MATERIAL" => &["LAYERS", "GLASS-TYPE"],
+                "LAYERS" => &["MATERIAL", "GAP"],
+                "CONSTRUCTION" => &["GAP", "LAYERS"],
+                "SPACE-CONDITIONS" => &["SYSTEM-CONDITIONS", "SCHEDULE-PD"],
+                "SYSTEM-CONDITIONS" => &["SPACE-CONDITIONS", "SCHEDULE-PD"],
+                "SPACE" => &["FLOOR", "POLYGON"],
+                "POLYGON" => &["SPACE", "FLOOR"],
+                _ => &["SPACE", "MATERIAL"],
+            };
+            let others: Vec<&RBlock> = blocks.iter().filter(|c| sibling.contains(&c.btype.as_str()) && c.name != b.name).collect();
+            if others.is_empty() {
+                return None;
+            }
+            let c = others[rng.usize(others.len())];
+            let from = format!("\"{}\"", b.name);
+            let to = format!("\"{}\"", c.name);
+            let mut n = 0;
+            for (i, l) in lines.iter_mut().enumerate() {
+                // headers ("name" = TYPE) stay; references are quoted names on attribute lines
+                let is_header = i == b.lines.0 || (l.contains('=') && l.trim_start().starts_with('"') && !l.contains('('));
+                if !is_header && l.contains(&from) {
+                    *l = l.replace(&from, &to);
+                    n += 1;
+                }
+            }
+            if n == 0 {
+                return None;
+            }
+            what = format!("retarget {} {:?} -> {} {:?}", ty, b.name, c.btype, c.name);
+        } else if mode == 0 {
             // remove the definition
             lines.drain(b.lines.0..=b.lines.1.min(lines.len() - 1));
             what = format!("remove {} {:?}", ty, b.name);
@@ -105,7 +144,7 @@ impl Property for C02 {
         "C02"
     }
     fn rule(&self) -> String {
-        "(a) every shipped project (12 .ctehexml, 56 .cte) converted as parse_with_catalog + try_from does; (b) generated projects in random layouts, a third with definitions and their references re-spelled with doubled blanks, blanks at the ends, brackets or very long names, half with generated system sections; (c) each of them with one definition that something may refer to renamed or removed in the text (CONSTRUCTION, LAYERS, MATERIAL, GLASS-TYPE, NAME-FRAME, GAP, POLYGON, FLOOR, SPACE, SPACE-/SYSTEM-CONDITIONS, yearly/weekly/daily schedule, wall blocks with children, an UNDERGROUND-FLOOR slipped between a wall and its windows); every Ok(model) must pass the harness's own closure walk (14 link kinds, unique non-nil ids) and bemodel::check; a panic is neither a model nor an error; non-trivial = distinct (project, edit)".into()
+        "(a) every shipped project (12 .ctehexml, 56 .cte) converted as parse_with_catalog + try_from does; (b) generated projects in random layouts, a third with definitions and their references re-spelled with doubled blanks, blanks at the ends, brackets or very long names, half with generated system sections; (c) each of them with one definition that something may refer to renamed, removed, or its references re-targeted to an existing definition of another kind (week schedule for day schedule, glass for frame, ...) in the text (CONSTRUCTION, LAYERS, MATERIAL, GLASS-TYPE, NAME-FRAME, GAP, POLYGON, FLOOR, SPACE, SPACE-/SYSTEM-CONDITIONS, yearly/weekly/daily schedule, wall blocks with children, an UNDERGROUND-FLOOR slipped between a wall and its windows); every Ok(model) must pass the harness's own closure walk (14 link kinds, unique non-nil ids) and bemodel::check; a panic is neither a model nor an error; non-trivial = distinct (project, edit)".into()
     }
     fn assumptions(&self) -> Vec<String> {
         vec!["an Ok result with a closed model is legal after an edit (the catalogue may supply the name, an optional link may become None, BDL re-parents children positionally)".into()]
@@ -114,7 +153,7 @@ impl Property for C02 {
         vec![("real".into(), real_project_files().len() as u64), ("generated".into(), tier.pick(450, 3000)), ("real-edited".into(), tier.pick(1000, 12_000)), ("generated-edited".into(), tier.pick(1000, 12_000))]
     }
     fn required(&self, _tier: Tier) -> Vec<(String, u64)> {
-        vec![("class:closed".into(), 300), ("class:rejected".into(), 100), ("edits:remove".into(), 150), ("edits:rename".into(), 100), ("edits:insert".into(), 10), ("generated:closed".into(), 60), ("generated-odd-names:closed".into(), 5), ("generated-odd-names:rejected".into(), 5)]
+        vec![("class:closed".into(), 300), ("class:rejected".into(), 100), ("edits:remove".into(), 150), ("edits:rename".into(), 100), ("edits:insert".into(), 10), ("edits:retarget".into(), 60), ("generated:closed".into(), 60), ("generated-odd-names:closed".into(), 5), ("generated-odd-names:rejected".into(), 5)]
     }
     fn time_cap_s(&self, tier: Tier) -> u64 {
         tier.pick(170, 2400)
